@@ -148,9 +148,9 @@ def composed(chk, fs):
     ev.tlc("Initiator/MC_Initiator.cfg (exhaustive, 5 steps)", r)
     short = [v for t, v in r.prints if t == "BEHAVIOUR"]
     rng = random.Random(chk.seed)
-    behaviours = rng.sample(short, min(len(short), 300 if chk.quick else 5000))
+    behaviours = rng.sample(short, min(len(short), 300 if chk.quick else 20000))
     for cfg in ("Sim_Initiator_on.cfg", "Sim_Initiator_off.cfg"):
-        rs = tlc.run("Initiator", cfg, workers=1, timeout=600, name="c12sim", simulate="num=%d" % (60 if chk.quick else 1500),
+        rs = tlc.run("Initiator", cfg, workers=1, timeout=600, name="c12sim", simulate="num=%d" % (60 if chk.quick else 5000),
                      extra=["-depth", "30", "-seed", str(chk.seed + 11)])
         if rs.violated:
             raise tlc.TLCFailure("Initiator.tla (simulation) violated %s" % rs.violated)
@@ -256,7 +256,7 @@ def run(chk, replay=None):
     rng = random.Random(chk.seed)
     hists = []
     try:
-        for k in range(40 if chk.quick else 600):
+        for k in range(40 if chk.quick else 2500):
             tr = ("sgio", "iscsi")[k % 2]
             bs = rng.choice([1, 2, 4])
             tgt = LiveTarget(bs, 2 ** 64 - 1)
